@@ -1,8 +1,11 @@
 INIT MInit
 NEXT MNext
 CONSTANTS
-  MaxStmts = 5
+  MaxStmts = 6
   MaxDepth = 3
+  UseY = TRUE
+  Cats = {"assign-v", "assign-x", "unpack", "aug", "expr", "return", "assert", "save", "mut", "loopjump", "raise",
+          "if", "ifelse", "while", "whileelse", "for", "forelse", "try", "with", "match"}
 INVARIANT Inhabited
 INVARIANT EmitDone
 CHECK_DEADLOCK FALSE
